@@ -110,6 +110,9 @@ type Stats struct {
 
 const maxShapes = 200000
 
+// selfTestHashes makes every run report its log hash, shape hash and verdict (determinism self-test).
+var selfTestHashes = os.Getenv("VSIM_SELFTEST") != ""
+
 func execRun(e *Engine, cmd *Command, gen, sch *Tape, idx uint64) (*RunCtx, *RunReport) {
 	ctx := &RunCtx{Gen: gen, Sch: sch, Mode: cmd.Mode, Tier: cmd.Tier, Counts: map[string]int64{}, Trivial: true}
 	e.Run(ctx)
@@ -217,6 +220,12 @@ func WorkerMain() {
 				}
 				if ctx.HashOut {
 					fmt.Fprintf(out, "H %d %d\n", idx, ctx.LogHash)
+				} else if selfTestHashes {
+					v := "ok"
+					if rep.Violation != nil {
+						v = rep.Violation.Signature
+					}
+					fmt.Fprintf(out, "H %d %d %d %s\n", idx, ctx.LogHash, ctx.Shape, v)
 				}
 			}
 			for h := range shapes {
